@@ -230,6 +230,9 @@ func runOne(spec solverSpec, query string, timeoutS int) (Verdict, string, float
 	dt := time.Since(t0).Seconds()
 	text := out.String()
 	first := strings.TrimSpace(strings.SplitN(text, "\n", 2)[0])
+	if strings.Contains(text, "(error") && !strings.Contains(text, "model is not available") {
+		return VError, text, dt
+	}
 	switch first {
 	case "unsat":
 		return VUnsat, text, dt
